@@ -414,6 +414,13 @@ def run(rep: common.Report, tier: str, seed: int, replay=None) -> int:
         for gam in (0.0, 1.0, 10.0):
             corpus.append(dict(n=1, gamma=gam, u=5.79, dt=1e-3, psi=[complex(mag, 0)], M=[[0j]],
                                mu=[0.3], eps=[1.0], kind="corpus"))
+    # large gamma (the documented range is gamma >= 0): the two terms of (2c+1)^2 - 4|z|^2|w|^2 are O(gamma^8), their difference
+    # O(gamma^4); the uniform state among them
+    import cmath as _cm
+    for gam in (3e2, 1e3, 3e3, 1e4):
+        p0 = 0.8 * _cm.exp(0.3j)
+        corpus.append(dict(n=2, gamma=gam, u=5.79, dt=1e-3, psi=[p0, 1.0 + 0j], M=[[(0.3 - 0.2j) / p0, 0j], [0j, 0j]],
+                           mu=[0.0, 0.0], eps=[1.0, 1.0], kind="corpus-large-gamma"))
     dr = double_root_groups(rng)
     # the same numbers in other number types: integer gamma / u / dt, numpy scalars
     for gam, u_, dt_ in ((10, 1, 1), (0, 2, 1), (np.float64(2.0), np.int64(3), np.float64(0.5)), (np.int64(1), 5.79, 0.125)):
